@@ -44,6 +44,11 @@ func main() {
 	}
 	// ev.Start first: it re-executes the binary as a supervised worker, so nothing expensive may precede it
 	r := ev.Start("C05", "exploration")
+	// glibc malloc in the (plain) server processes: no mmap per large buffer and no trimming, so that the
+	// multi-megabyte objects and buffers that are allocated and freed per job reuse warm pages
+	os.Setenv("MALLOC_MMAP_THRESHOLD_", "1073741824")
+	os.Setenv("MALLOC_TRIM_THRESHOLD_", "4294967295")
+	os.Setenv("MALLOC_TOP_PAD_", "67108864")
 	scratch, mine, err := cserve.Scratch()
 	if err != nil {
 		ev.Fatal("%v", err)
@@ -87,7 +92,7 @@ func main() {
 		"inputs whose one-shot run ends in an error are compared on status and output only (the property exempts the consumed count after an error)",
 		"outputs above 8 KiB and pixel buffers are compared by length and a 64-bit hash computed in the server, smaller outputs byte for byte",
 		"token streams are compared in the normal form described in checks/c05/tokens.go (doc/note/tokens.md does not promise where runs of filler or of copyable string bytes are cut into tokens)",
-		"plain (-O2) servers run every script; ASan+UBSan servers re-run the stepped (1/2/3/5/16-byte) scripts of every input (quick: inputs up to 16 KiB) and the single source splits of inputs up to 64 bytes; a sanitizer report that the one-shot run of the same input also triggers is counted, not reported (C03)",
+		"plain (-O2) servers run every script; ASan+UBSan servers re-run the stepped (1/2/3/5/16-byte) scripts of every input (quick: inputs up to 4 KiB) and the single source splits of inputs up to 64 bytes (quick: of every other such input); a sanitizer report that the one-shot run of the same input also triggers is counted, not reported (C03)",
 		"part (a) of the property (generated coroutines against the reference interpreter) is not part of this build",
 	})
 }
